@@ -11,6 +11,15 @@ Streams
   sclass    stochastic_binary / stochastic_ternary: training sample step, phase-0 twins
   rng       un-patched tf.random: many seeds, every draw judged by the `adjacent` clause,
             empirical mean in the evidence only
+  xc        (strengthening round) the same clause oracle on: numeric options given as numpy scalars /
+            0-d arrays / tf constants, inputs of rank 0-5 and numpy inputs, histories on ONE object
+            (phase switched between calls, shape changed between calls, use_stochastic_rounding
+            re-assigned, K.learning_phase_scope, tf.function)
+  lattice   (strengthening round) clause-only: at phase 0 every stochastic-capable class equals its
+            use_stochastic_rounding=False twin built from the SAME options, over the option lattice
+            the model does not cover (use_sigmoid, relu_upper_bound, is_quantized_clip, alpha='auto*',
+            quantized_hswish, qnoise_factor, use_ste, bits=8 po2, max_value a power of two with an odd
+            exponent ...), twice on the same object, without a single random draw
 """
 from fractions import Fraction
 import math
@@ -55,6 +64,13 @@ class Draws:
     if not self.queue:
       raise DrawError("unexpected draw #%d" % self.calls)
     u = np.asarray(self.queue.pop(0), dtype=np.float32)
+    try:
+      want = int(np.prod([int(d) for d in np.asarray(shape).reshape(-1)]))
+    except Exception:  # pylint: disable=broad-except  (symbolic shape: let tf.reshape decide)
+      want = u.size
+    if want != u.size:
+      raise DrawError("draw #%d has shape %s (%d values) for an input of %d elements: not one "
+                      "independent draw per element" % (self.calls, list(np.asarray(shape).reshape(-1)), want, u.size))
     u = tf.reshape(tf.constant(u), shape)
     if maxval is None and (isinstance(minval, (int, float)) and minval == 0):
       return u
@@ -158,7 +174,7 @@ def fixed_configs(tier, rng):
     for integer in (0, 1, 2):
       out.append(("quantized_relu", dict(bits=bits, integer=integer, negative_slope=0.0)))
     if bits >= 4:
-      for ns in (0.25, 0.5):
+      for ns in (0.25, 0.5) + ((2.0,) if bits == 4 else ()):      # slope > 1 is legal (a power of two)
         out.append(("quantized_relu", dict(bits=bits, integer=1, negative_slope=ns)))
   for bits in [2, 3, 4, 8] + ([6] if big else []):
     for sym in (False, True):
@@ -168,18 +184,61 @@ def fixed_configs(tier, rng):
   return out
 
 
+def po2_mode(cfg):
+  fl = cfg.get("log2_rounding", "rnd") == "floor"
+  qd = bool(cfg.get("quadratic_approximation", False))
+  return "floor+quad" if (fl and qd) else ("floor" if fl else ("quad" if qd else "rnd"))
+
+
 def po2_configs(tier):
+  """the FULL option lattice of the two power-of-two classes: bits x max_value x log2_rounding x
+  quadratic_approximation x negative_slope (0, < 1, 1, > 1); every configuration is run with the flag
+  on (training and inference) and compared with the twin built from the same options with the flag off.
+  max_value 0.5 = 2^-1 is left to the lattice stream: under quadratic approximation sqrt(0.5) sits
+  exactly on the round-half-even tie of the float logarithm (device 3 band)."""
   out = []
-  for bits in (3, 4, 5) + ((6,) if tier != "quick" else ()):
-    for mv in (None, 1.0, 3.0, 4.0):
-      out.append(("quantized_po2", dict(bits=bits, max_value=mv)))
-      out.append(("quantized_relu_po2", dict(bits=bits - 1, max_value=mv, negative_slope=0)))
-    out.append(("quantized_relu_po2", dict(bits=bits - 1, max_value=None, negative_slope=0.25)))
+  big = tier != "quick"
+  for bits in (3, 4, 5) + ((6,) if big else ()):
+    for mv in (None, 1.0, 3.0, 4.0, 0.75):
+      for rounding in ("rnd", "floor"):
+        for quad in (False, True):
+          full = bits == 4 or big
+          if not full and (mv in (1.0, 0.75) and (rounding == "floor" or quad)):
+            continue            # quick: the complete lattice at bits=4, a covering subset elsewhere
+          opt = dict(log2_rounding=rounding, quadratic_approximation=quad)
+          out.append(("quantized_po2", dict(bits=bits, max_value=mv, **opt)))
+          slopes = (0, 0.25, 1.0, 2.0) if full else ((0, 2.0) if mv is None else (0.25,))
+          for ns in slopes:
+            out.append(("quantized_relu_po2", dict(bits=bits - 1, max_value=mv, negative_slope=ns, **opt)))
   return out
 
 
-def make_q(Q, cls, cfg, stoch):
+def _form(v, form):
+  """the same number in another argument form (cross-cutting blind spot: argument forms)"""
+  if v is None or isinstance(v, (bool, str)) or form == "py":
+    return v
+  integral = float(v) == int(v) and isinstance(v, int)
+  if form == "np32":
+    return np.int32(v) if integral else np.float32(v)
+  if form == "np64":
+    return np.int64(v) if integral else np.float64(v)
+  if form == "0d":
+    return np.array(v)
+  if form == "tf":
+    import tensorflow as tf
+    return tf.constant(v)
+  raise ValueError(form)
+
+
+FORM_KEYS = ("bits", "integer", "max_value", "negative_slope", "alpha")
+
+
+def make_q(Q, cls, cfg, stoch, form="py"):
   kw = dict(cfg)
+  if form != "py":
+    for k in FORM_KEYS:
+      if k in kw:
+        kw[k] = _form(kw[k], form)
   kw["use_stochastic_rounding"] = stoch
   return getattr(Q, cls)(**kw)
 
@@ -222,20 +281,70 @@ def fixed_inputs(cls, cfg, rng):
   raise ValueError(cls)
 
 
+def po2_mag(cls, cfg, x):
+  """the non-negative magnitude handed to _clip_power_of_two for this element, after x_filter
+  (exact; mirrors the property text's "(clipped) input", not the Lean model)"""
+  if cls == "quantized_relu_po2":
+    ns = Fraction(cfg["negative_slope"])
+    m = (x if x > 0 else Fraction(0)) if (x >= 0 or ns == 0) else -x * ns
+  else:
+    m = abs(x)
+  eps = Fraction(float(np.float32(1e-7)))
+  m = eps if m < eps else m
+  if cfg.get("max_value") is not None and m >= Fraction(cfg["max_value"]):
+    m = Fraction(cfg["max_value"])
+  return m
+
+
+def _is_odd_pow2(m):
+  if m <= 0:
+    return False
+  if m.numerator != 1 and m.denominator != 1:
+    return False
+  e = m.numerator.bit_length() - 1 if m.denominator == 1 else -(m.denominator.bit_length() - 1)
+  return Fraction(2) ** e == m and e % 2 != 0
+
+
 def po2_inputs(cls, cfg, rng):
   pts = [Fraction(0)]
   for e in range(-7, 5):
     b = Fraction(2) ** e
     pts += [b, b * Fraction(3, 2), b * Fraction(5, 4), b * Fraction(129, 128), b * Fraction(255, 128),
             b * (1 + Fraction(int(rng.integers(1, 128)), 128))]
+  if cfg.get("quadratic_approximation"):
+    # codes 4^e, perfect squares (the float sqrt is exact), points next to both ends of a 4^e bracket
+    for e in range(-3, 3):
+      b = Fraction(4) ** e
+      pts += [b * Fraction(9, 4), b * Fraction(25, 16), b * Fraction(49, 16), b * Fraction(129, 128) ** 2,
+              b * Fraction(255, 128) ** 2, b * Fraction(511, 128), b * 3,
+              b * (1 + Fraction(int(rng.integers(1, 128)), 128)) ** 2]
   pts += [-p for p in pts[1::3]]
   if cfg.get("max_value"):
     mv = Fraction(cfg["max_value"])
     pts += [mv, mv * Fraction(127, 128), mv * Fraction(129, 128), mv * 3]
+  if cfg.get("quadratic_approximation"):
+    # x_filter = 2^odd: sqrt sits exactly on the half-even tie of round(log2) evaluated in float32
+    pts = [p for p in pts if not _is_odd_pow2(po2_mag(cls, cfg, p))]
   return pts
 
 
-def model_line(cls, cfg, stoch, phase, xs, u1=None, u2=None, extra=None):
+def po2_sqrt_oracle(tf, cls, cfg, xs32):
+  """tf.sqrt(x_filter) of the selected side, by the same TF op (device 2); float32 array"""
+  x = np.asarray(xs32, dtype=np.float32)
+  if cls == "quantized_relu_po2":
+    ns = np.float32(cfg["negative_slope"])
+    mag = np.where((x >= 0) | (ns == 0), np.maximum(x, np.float32(0)), (-x) * ns).astype(np.float32)
+  else:
+    mag = np.abs(x)
+  eps = np.float32(1e-7)
+  f = np.where(mag < eps, eps, mag).astype(np.float32)
+  if cfg.get("max_value") is not None:
+    mv = np.float32(cfg["max_value"])
+    f = np.where(f >= mv, mv, f).astype(np.float32)
+  return np.asarray(tf.sqrt(tf.constant(f)).numpy(), dtype=np.float32)
+
+
+def model_line(cls, cfg, stoch, phase, xs, u1=None, u2=None, extra=None, s=None):
   d = {"op": "q", "cls": cls, "phase": phase, "stoch": stoch, "x": enc(xs)}
   if cls in ("quantized_bits", "quantized_linear"):
     d.update(bits=cfg["bits"], integer=cfg["integer"], symmetric=bool(cfg["symmetric"]),
@@ -245,9 +354,12 @@ def model_line(cls, cfg, stoch, phase, xs, u1=None, u2=None, extra=None):
   elif cls in ("quantized_tanh", "quantized_sigmoid"):
     d.update(bits=cfg["bits"], symmetric=bool(cfg["symmetric"]))
   elif cls in ("quantized_po2", "quantized_relu_po2"):
-    d.update(bits=cfg["bits"], max_value=None if cfg["max_value"] is None else core.rj(cfg["max_value"]))
+    d.update(bits=cfg["bits"], max_value=None if cfg["max_value"] is None else core.rj(cfg["max_value"]),
+             floor=cfg.get("log2_rounding", "rnd") == "floor", quad=bool(cfg.get("quadratic_approximation", False)))
     if cls == "quantized_relu_po2":
       d["neg_slope"] = core.rj(cfg["negative_slope"])
+    if s is not None:
+      d["s"] = enc(s)
   if u1 is not None:
     d["u1"] = enc(u1)
   if u2 is not None:
@@ -257,7 +369,8 @@ def model_line(cls, cfg, stoch, phase, xs, u1=None, u2=None, extra=None):
   return d
 
 
-def n_draws(cls, cfg):
+def q_draws(cls, cfg):
+  """draws QUEUED for a training call: what the class can consume at most"""
   if cls == "quantized_bits" and cfg["bits"] - int(cfg["keep_negative"]) <= 0:
     return 0          # sign branch: no _round_through call
   if cls == "quantized_relu":
@@ -265,6 +378,14 @@ def n_draws(cls, cfg):
   if cls == "quantized_relu_po2":
     return 2
   return 1
+
+
+def n_draws(cls, cfg):
+  """draws the MODEL consumes in training (log2_rounding="floor": `power_of_two_clip` tests "floor"
+  before the stochastic flag, so nothing is drawn)"""
+  if "po2" in cls and cfg.get("log2_rounding", "rnd") == "floor":
+    return 0
+  return q_draws(cls, cfg)
 
 
 # --------------------------------------------------------------------------- the check
@@ -283,7 +404,19 @@ def run(run: core.Run, tier: str):
       "floor23(frac)-2^-23, floor23(frac), +2^-23, 1-2^-23 and one seeded random multiple of 2^-23 "
       "(frac = probability of the upper code from the Lean reference; +2*2^-23 for real tanh/sigmoid, "
       "whose `fraction` carries one float32 rounding <= 2^-25). All other values are short dyadics so "
-      "float32 arithmetic is exact. non-trivial = distinct (class, configuration, stream, variant)")
+      "float32 arithmetic is exact. Power-of-two classes: the FULL option lattice bits x max_value x "
+      "log2_rounding {rnd, floor} x quadratic_approximation x negative_slope {0, 1/4, 1, 2} (complete at "
+      "bits=4, covering subset at the other widths in quick), each with the flag on (training, inference) "
+      "against the twin built from the same options with the flag off; quadratic inputs add codes 4^e, "
+      "perfect squares and both ends of a 4^e bracket and exclude x_filter = 2^odd (float tie of the "
+      "deterministic path). Cross-cutting streams (12 configurations): numeric options as np.int32/"
+      "np.float32, np.int64/np.float64, 0-d ndarray, tf.constant; the flag as 1, np.bool_, 0-d bool; "
+      "from_config(get_config()) and get_quantizer(str(q)) routes; ranks 0-5 with size-1 dimensions, numpy "
+      "vs tensor inputs; one object through phase 0 -> 1 -> 0 -> 1 (plain, K.learning_phase_scope, "
+      "tf.function), shape changed between calls, built under the opposite phase, "
+      "use_stochastic_rounding re-assigned off/on; set_internal_sigmoid smooth/real switched after "
+      "construction. Lattice stream: ~300 option combinations outside the model, inference clause only. "
+      "non-trivial = distinct (class, configuration, stream, variant)")
   run.assumptions += [
       "tf.random.uniform returns float32 multiples of 2^-23 in [0,1), independent per element; it is "
       "replaced in the harness process by a function returning chosen tensors (train stream) and used "
@@ -293,6 +426,9 @@ def run(run: core.Run, tier: str):
       "tanh / sigmoid values enter the model as oracle arguments computed by the same TF op",
       "round(log2(y+eps)) inside stochastic_round_po2 is an oracle the theorems only need within 1 "
       "of log2 y (LogOK); the driver evaluates that hypothesis on every case (h_ok)",
+      "tf.sqrt(x_filter) under quadratic_approximation is an oracle argument of the model computed by "
+      "the same TF op; the driver checks s*s = x_filter within 2^-22 (relative) on every case and the "
+      "theorems hold for every s",
       "element-wise model: K.max(|x|) (binary) and the auto_po2 start scale (ternary) are computed by "
       "the harness with numpy / the same TF ops and passed in",
   ]
@@ -305,16 +441,27 @@ def run(run: core.Run, tier: str):
     mods.append(tf.random)
   draws.install(mods)
 
-  def call(q, xs_f32, ulists, phase, shape=None):
-    """run the real quantizer with the given draws; returns (flat float32 array | exception, leftover)"""
-    K.set_learning_phase(1 if phase else 0)
-    draws.queue = [np.asarray(u, dtype=np.float32) for u in ulists]
-    draws.calls = 0
+  def call(q, xs_f32, ulists, phase, shape=None, as_numpy=False, scope=None, graph=False):
+    """run the real quantizer with the given draws; returns (flat float32 array | exception, leftover).
+    as_numpy: hand the numpy array itself to the quantizer; scope: set the GLOBAL phase to the opposite
+    value and enter K.learning_phase_scope(phase); graph: call through tf.function"""
+    if scope:
+      K.set_learning_phase(0 if phase else 1)
+    else:
+      K.set_learning_phase(1 if phase else 0)
     x = np.asarray(xs_f32, dtype=np.float32)
     if shape is not None:
       x = x.reshape(shape)
+    draws.queue = [np.asarray(u, dtype=np.float32) for u in ulists]
+    draws.calls = 0
     try:
-      y = q(tf.constant(x))
+      arg = x if as_numpy else tf.constant(x)
+      fn = tf.function(lambda t: q(t)) if graph else q
+      if scope:
+        with K.learning_phase_scope(1 if phase else 0):
+          y = fn(arg)
+      else:
+        y = fn(arg)
       y = np.asarray(y.numpy() if hasattr(y, "numpy") else y, dtype=np.float32)
     except Exception as e:  # pylint: disable=broad-except  (the real code raised; the caller judges it)
       left = len(draws.queue)
@@ -328,7 +475,10 @@ def run(run: core.Run, tier: str):
 
   try:
     _prim(run, tier, rng, tf, Q, K, draws)
-    _classes(run, tier, rng, tf, Q, K, draws, call)
+    cases = _classes(run, tier, rng, tf, Q, K, draws, call)
+    _crosscut(run, tier, rng, tf, Q, K, draws, call, cases)
+    _lattice(run, tier, rng, tf, Q, K, draws, call)
+    _live(run, tier, rng, tf, Q, K, draws, call)
     if not quick:
       # three more input/draw samples of the same configuration grid
       for extra in range(3):
@@ -423,23 +573,28 @@ def _oracle_p(tf, Q, K, cls, cfg, xs32):
   return np.asarray(p.numpy(), dtype=np.float32)
 
 
-def _classes(run, tier, rng, tf, Q, K, draws, call):
-  cfgs = fixed_configs(tier, rng) + po2_configs(tier)
-  cases = []
-  for cls, cfg in cfgs:
-    xs = po2_inputs(cls, cfg, rng) if "po2" in cls else fixed_inputs(cls, cfg, rng)
-    xs32 = f32list(xs)
-    if cls in ("quantized_tanh", "quantized_sigmoid"):
-      ps = fr_list(_oracle_p(tf, Q, K, cls, cfg, xs32))
-    else:
-      ps = xs
-    cases.append(dict(cls=cls, cfg=cfg, xs=xs, xs32=xs32, ps=ps))
-  # pass 1: the reference notions (below / above / frac / is-code) do not depend on the draw
-  ref = core.run_driver("C08", [model_line(c["cls"], c["cfg"], True, True, c["ps"]) for c in cases])
-  lines, recs = [], []
+def build_case(tf, Q, K, cls, cfg, rng):
+  xs = po2_inputs(cls, cfg, rng) if "po2" in cls else fixed_inputs(cls, cfg, rng)
+  xs32 = f32list(xs)
+  if cls in ("quantized_tanh", "quantized_sigmoid"):
+    ps = fr_list(_oracle_p(tf, Q, K, cls, cfg, xs32))
+  else:
+    ps = xs
+  ss = None
+  if "po2" in cls and cfg.get("quadratic_approximation"):
+    ss = fr_list(po2_sqrt_oracle(tf, cls, cfg, xs32))
+  return dict(cls=cls, cfg=cfg, xs=xs, xs32=xs32, ps=ps, ss=ss)
+
+
+def case_line(c, stoch, phase, u1=None, u2=None):
+  return model_line(c["cls"], c["cfg"], stoch, phase, c["ps"], u1, u2, s=c.get("ss"))
+
+
+def attach_refs(run, cases):
+  """pass 1: the reference notions (below / above / frac / is-code) do not depend on the draw"""
+  ref = core.run_driver("C08", [case_line(c, True, True) for c in cases])
   for c, r in zip(cases, ref):
     cls, cfg = c["cls"], c["cfg"]
-    lat = "below" in r
     c["ref"] = r
     if "po2" in cls:
       if not all(r["bracket_ok"]):
@@ -447,49 +602,101 @@ def _classes(run, tier, rng, tf, Q, K, draws, call):
       bad_h = [str(x) for x, ok, tiny in zip(c["xs"], r["h_ok"], r["tiny"]) if not ok and not tiny]
       if bad_h:
         run.disagree("train", {"cls": cls, "cfg": str(cfg), "what": "LogOK false", "x": bad_h[:3]}, None, None)
-    fracs = dec(r["frac"]) if lat else [Fraction(0)] * len(c["xs"])
+      if not all(r["sqrt_ok"]):
+        run.disagree("train", {"cls": cls, "cfg": str(cfg), "what": "sqrt oracle is not the square root"},
+                     None, None)
+      run.count("po2_sqrt_exact_inputs", sum(1 for v in r["sqrt_exact"] if v) if c.get("ss") else 0)
+    lat = "below" in r
+    c["fracs"] = dec(r["frac"]) if lat else [Fraction(0)] * len(c["xs"])
+
+
+def sub_case(c, idx):
+  """the same case restricted to the elements idx (for scalar / small-tensor calls)"""
+  n = len(c["xs"])
+  d = dict(c)
+  for k in ("xs", "ps", "ss", "fracs"):
+    if c.get(k) is not None:
+      d[k] = [c[k][i] for i in idx]
+  d["xs32"] = np.asarray([c["xs32"][i] for i in idx], dtype=np.float32)
+  d["ref"] = {k: ([v[i] for i in idx] if isinstance(v, list) and len(v) == n else v) for k, v in c["ref"].items()}
+  return d
+
+
+def train_rec(c, q, call, rng, variant, tag=None, lines=None, recs=None, **kw):
+  """one training-phase call of the real quantizer `q` on case `c` with the chosen draws `variant`"""
+  cls, cfg = c["cls"], c["cfg"]
+  gap = 2 if (cfg.get("use_real_tanh") or cfg.get("use_real_sigmoid") or c.get("gap")) else 1
+  nq, nm = q_draws(cls, cfg), n_draws(cls, cfg)
+  u1 = u_variant(variant, c["fracs"], rng, gap)
+  u2 = u_variant(variant, c["fracs"], rng, gap) if nq == 2 else None
+  ul = ([f32list(u1)] if nq >= 1 else []) + ([f32list(u2)] if nq == 2 else [])
+  if kw.get("shape") is not None:
+    ul = [u.reshape(kw["shape"]) for u in ul]
+  y, left = call(q, c["xs32"], ul, True, **kw)
+  lines.append(case_line(c, True, True, u1, u2))
+  recs.append(dict(c=c, stream="train", variant=tag or variant, u1=u1, u2=u2, y=y, left=left,
+                   expect_left=nq - nm))
+
+
+def infer_rec(c, q, qd, call, tag, lines, recs, phase=False, stoch_model=True, **kw):
+  """a call that must be deterministic and equal to the twin `qd` (flag off) at either phase: the flag
+  on at phase 0, or (stoch_model=False) an object whose flag was switched off, at `phase`"""
+  y0, left0 = call(q, c["xs32"], [], phase, **kw)
+  kw2 = {k: v for k, v in kw.items() if k in ("shape", "as_numpy")}
+  yt0, _ = call(qd, c["xs32"], [], False, **kw2)
+  yt1, _ = call(qd, c["xs32"], [], True, **kw2)
+  lines.append(case_line(c, stoch_model, phase))
+  recs.append(dict(c=c, stream="infer", variant=tag, y=y0, left=left0, twin0=yt0, twin1=yt1, expect_left=0))
+
+
+def _classes(run, tier, rng, tf, Q, K, draws, call):
+  cfgs = fixed_configs(tier, rng) + po2_configs(tier)
+  cases = [build_case(tf, Q, K, cls, cfg, rng) for cls, cfg in cfgs]
+  attach_refs(run, cases)
+  lines, recs = [], []
+  for c in cases:
+    cls, cfg = c["cls"], c["cfg"]
+    if "po2" in cls:
+      run.count("po2_cfg_%s_%s" % (cls, po2_mode(cfg)))
     qs = make_q(Q, cls, cfg, True)
     qd = make_q(Q, cls, cfg, False)
-    nd = n_draws(cls, cfg)
     # ---- training, chosen draws
-    gap = 2 if (cfg.get("use_real_tanh") or cfg.get("use_real_sigmoid")) else 1
     for v in VARIANTS:
-      u1 = u_variant(v, fracs, rng, gap)
-      u2 = u_variant(v, fracs, rng, gap) if nd == 2 else None
-      ul = ([f32list(u1)] if nd >= 1 else []) + ([f32list(u2)] if nd == 2 else [])
-      y, left = call(qs, c["xs32"], ul, True)
-      lines.append(model_line(cls, cfg, True, True, c["ps"], u1, u2))
-      recs.append(dict(c=c, stream="train", variant=v, u1=u1, u2=u2, y=y, left=left))
-    # ---- inference: stochastic flag at phase 0, twin without the flag at phase 0 and 1
-    y0, left0 = call(qs, c["xs32"], [], False)
-    yt0, _ = call(qd, c["xs32"], [], False)
-    yt1, _ = call(qd, c["xs32"], [], True)
-    lines.append(model_line(cls, cfg, True, False, c["ps"]))
-    recs.append(dict(c=c, stream="infer", variant="phase0", y=y0, left=left0, twin0=yt0, twin1=yt1))
+      train_rec(c, qs, call, rng, v, lines=lines, recs=recs)
+    # ---- inference: stochastic flag at phase 0, twin (same options, flag off) at phase 0 and 1
+    infer_rec(c, qs, qd, call, "phase0", lines, recs)
   outs = core.run_driver("C08", lines)
   for rec, o in zip(recs, outs):
     _judge_class(run, rec, o)
+  return cases
 
 
 def _judge_class(run, rec, o):
   c = rec["c"]
   cls, cfg, xs, ps, r = c["cls"], c["cfg"], c["xs"], c["ps"], c["ref"]
   ident = {"cls": cls, "cfg": str(cfg), "stream": rec["stream"], "variant": rec["variant"]}
+  # known-finding key: class (+ option mode of the power-of-two classes) + kind
+  kbase = {"class": cls}
+  mode = None
+  if "po2" in cls:
+    mode = po2_mode(cfg)
+    kbase["mode"] = mode
   run.case((cls, str(cfg), rec["stream"], rec["variant"]),
-           sample=dict(ident, x=str(xs[1]), u=str(rec.get("u1", [0, 0])[1]) if rec.get("u1") else None))
+           sample=dict(ident, x=str(xs[min(1, len(xs) - 1)]),
+                       u=str(rec["u1"][min(1, len(xs) - 1)]) if rec.get("u1") else None))
   model = dec(o["y"])
   y = rec["y"]
   if isinstance(y, Exception):
     run.disagree(rec["stream"], ident, "exception: %s" % y, "value")
     if isinstance(y, DrawError) and rec["stream"] == "infer":
-      run.violate("inference_equal", {"class": cls, "kind": "random-draw-at-inference"},
+      run.violate("inference_equal", dict(kbase, kind="random-draw-at-inference"),
                   dict(ident, error=str(y)), mirrored=False)
     else:
-      run.violate("runs", {"class": cls, "kind": type(y).__name__}, dict(ident, error=str(y)), mirrored=False)
+      run.violate("runs", dict(kbase, kind=type(y).__name__), dict(ident, error=str(y)[:300]), mirrored=False)
     return
-  if rec["left"]:
-    run.disagree(rec["stream"], dict(ident, what="fewer tf.random.uniform calls than the model has draws"),
-                 rec["left"], 0)
+  if rec["left"] != rec.get("expect_left", 0):
+    run.disagree(rec["stream"], dict(ident, what="number of tf.random.uniform calls differs from the model's draws"),
+                 "left in queue: %d" % rec["left"], "left in queue: %d" % rec.get("expect_left", 0))
   impl = fr_list(y)
   run.compared += len(impl)
   lat = "below" in r
@@ -515,7 +722,7 @@ def _judge_class(run, rec, o):
       run.count("infer_%s_elems" % cls, len(impl))
       if bad:
         i = bad[0]
-        run.violate("inference_equal", {"class": cls, "kind": "value"},
+        run.violate("inference_equal", dict(kbase, kind="value"),
                     dict(ident, twin=nm, x=str(xs[i]), stochastic_flag_output=str(impl[i]),
                          deterministic_output=str(tw[i]), n_bad=len(bad)), mirrored=agree[i])
     return
@@ -529,23 +736,24 @@ def _judge_class(run, rec, o):
   if cls == "quantized_relu_po2":
     neg_side = [(x < 0 and cfg["negative_slope"] != 0) for x in xs]
   clipped = dec(r["clipped"])
+  tag = ("_" + mode) if mode and mode != "rnd" else ""
   for i, yi in enumerate(impl):
     lo_, hi_ = min(below[i], above[i]), max(below[i], above[i])
     u = rec["u2"][i] if (neg_side[i] and rec.get("u2")) else u1[i]
     if below[i] == above[i]:
       # the clipped input is itself a code: it must come back unchanged, whatever the draw
-      run.count("train_%s_%s" % (cls, "code" if r["xcode"][i] else "saturated"))
+      run.count("train_%s%s_%s" % (cls, tag, "code" if r["xcode"][i] else "saturated"))
       if yi != below[i]:
         kind = "u0_roundup" if ("po2" in cls and u == 0 and abs(yi) == 2 * abs(below[i])) else "other"
-        run.violate("code_fixed", {"class": cls, "kind": kind},
+        run.violate("code_fixed", dict(kbase, kind=kind),
                     dict(ident, x=str(xs[i]), clipped_input=str(clipped[i]), u=str(u), output=str(yi)),
                     mirrored=agree[i])
       continue
-    run.count("train_%s_interior" % cls)
+    run.count("train_%s%s_interior" % (cls, tag))
     # clause adjacent
     if yi != below[i] and yi != above[i]:
       kind = "midpoint" if 2 * yi == below[i] + above[i] else ("between" if lo_ < yi < hi_ else "outside")
-      run.violate("adjacent", {"class": cls, "kind": kind},
+      run.violate("adjacent", dict(kbase, kind=kind),
                   dict(ident, x=str(xs[i]), clipped_input=str(clipped[i]), u=str(u), output=str(yi),
                        code_below=str(below[i]), code_above=str(above[i])), mirrored=agree[i])
       continue
@@ -555,9 +763,16 @@ def _judge_class(run, rec, o):
     # stochastic_round_po2 — a change shows as a disagreement)
     up = (yi == above[i])
     if (u < fracs[i] and not up) or (u > fracs[i] and up):
-      run.violate("threshold", {"class": cls, "kind": "up" if up else "down"},
-                  dict(ident, x=str(xs[i]), u=str(u), frac=str(fracs[i]), output=str(yi),
-                       code_below=str(below[i]), code_above=str(above[i])), mirrored=agree[i])
+      kind = "up" if up else "down"
+      if up and mode == "quad":
+        # the recorded defect of quadratic_approximation: the draw is compared with the position of
+        # sqrt(x) between 2^l and 2^(l+1) instead of the position of x between 4^l and 4^(l+1):
+        # up although u > frac, but u is still below the sqrt-domain fraction  <=>  x > 4^l (1+u)^2
+        if abs(clipped[i]) > abs(below[i]) * (1 + u) ** 2:
+          kind = "up_sqrt_domain"
+      run.violate("threshold", dict(kbase, kind=kind),
+                  dict(ident, x=str(xs[i]), clipped_input=str(clipped[i]), u=str(u), frac=str(fracs[i]),
+                       output=str(yi), code_below=str(below[i]), code_above=str(above[i])), mirrored=agree[i])
 
 
 # ---- binary(use_stochastic_rounding) ----------------------------------------------------------------
@@ -637,7 +852,7 @@ def _binary(run, tier, rng, tf, Q, K, draws, call):
                     mirrored=agree[bad[0]])
   # phase-0 shape behaviour (regression of repair 65bdf0f: the fill used to be
   # `tf.ones_like(tf.shape(x))`, shape [rank]); every shape must come back with the twin's values
-  shapes = [(5,), (4, 2), (3, 4), (2, 3, 3), (2, 2, 5), (6, 1), (1,), (2, 2, 2, 4)]
+  shapes = [(5,), (4, 2), (3, 4), (2, 3, 3), (2, 2, 5), (6, 1), (1,), (2, 2, 2, 4), (1, 2, 1, 3, 2), (1, 1)]
   souts = core.run_driver("C08", [{"op": "binshape", "shape": list(s)} for s in shapes])
   qs = Q.binary(alpha=1.0, use_stochastic_rounding=True)
   qd = Q.binary(alpha=1.0)
@@ -793,9 +1008,10 @@ def _sclasses(run, tier, rng, tf, Q, K, draws, call):
       twins.append(("stochastic_ternary", Q.stochastic_ternary(alpha=alpha, threshold=thr),
                     Q.ternary(alpha=alpha, threshold=thr), alpha, thr))
   for cls, a, b, alpha, thr in twins:
-    for shp in ((len(x2) // 4, 4), (len(x2),)):
-      ya, _ = call(a, x2, [], False, shp)
-      yb, _ = call(b, x2, [], False, shp)
+    for shp in ((len(x2) // 4, 4), (len(x2),), (len(x2) // 4, 2, 2), (1, len(x2) // 4, 1, 2, 2)):
+      as_np = len(shp) == 3
+      ya, _ = call(a, x2, [], False, shp, as_numpy=as_np)
+      yb, _ = call(b, x2, [], False, shp, as_numpy=as_np)
       run.case((cls, "infer", str(alpha), str(thr), shp))
       run.compared += 1
       run.count("twin_%s" % cls)
@@ -832,6 +1048,406 @@ def _sclasses(run, tier, rng, tf, Q, K, draws, call):
                     {"output": float(yi), "scale": float(si)}, mirrored=False)
 
 
+# ---- cross-cutting: argument forms, ranks, numpy inputs, histories on one object ----------------------
+
+XC_CONFIGS = [
+    ("quantized_bits", dict(bits=4, integer=1, symmetric=0, keep_negative=True, alpha=None)),
+    ("quantized_linear", dict(bits=4, integer=1, symmetric=1, keep_negative=True, alpha=2.0)),
+    ("quantized_linear", dict(bits=1, integer=0, symmetric=1, keep_negative=True, alpha=None)),
+    ("quantized_relu", dict(bits=4, integer=1, negative_slope=0.0)),
+    ("quantized_relu", dict(bits=4, integer=1, negative_slope=2.0)),
+    ("quantized_tanh", dict(bits=4, symmetric=True, use_real_tanh=False)),
+    ("quantized_sigmoid", dict(bits=3, symmetric=False, use_real_sigmoid=False)),
+    ("quantized_po2", dict(bits=4, max_value=None, log2_rounding="rnd", quadratic_approximation=False)),
+    ("quantized_po2", dict(bits=4, max_value=3.0, log2_rounding="floor", quadratic_approximation=False)),
+    ("quantized_po2", dict(bits=5, max_value=None, log2_rounding="rnd", quadratic_approximation=True)),
+    ("quantized_relu_po2", dict(bits=3, max_value=None, negative_slope=0.25, log2_rounding="rnd",
+                                quadratic_approximation=False)),
+    ("quantized_relu_po2", dict(bits=3, max_value=4.0, negative_slope=2.0, log2_rounding="floor",
+                                quadratic_approximation=True)),
+]
+
+
+def _crosscut(run, tier, rng, tf, Q, K, draws, call, cases):
+  """the clause oracle and the model comparison of `_classes`, on calls that are not "fresh object,
+  python numbers, one rank-1 tensor": same value => same behaviour, k-th use == first use"""
+  by_key = {(c["cls"], str(c["cfg"])): c for c in cases}
+  lines, recs = [], []
+  for cls, cfg in XC_CONFIGS:
+    full = by_key.get((cls, str(cfg)))
+    if full is None:
+      full = build_case(tf, Q, K, cls, cfg, rng)
+      attach_refs(run, [full])
+    n = len(full["xs"])
+    # 16 elements: a spread over codes / interior / saturation, fixed by the run seed
+    idx = sorted(int(i) for i in rng.choice(n, size=min(16, n), replace=False))
+    c = sub_case(full, idx)
+    m = len(idx)
+    qd = make_q(Q, cls, cfg, False)
+    # -- argument forms
+    for form in ("np32", "np64", "0d", "tf"):
+      try:
+        qdf = make_q(Q, cls, cfg, False, form)
+        probe, _ = call(qdf, c["xs32"], [], False)
+      except Exception as e:  # pylint: disable=broad-except
+        probe = e
+      if isinstance(probe, Exception):
+        # the class does not take this form at all (flag off): not a matter of this property
+        run.count("xc_argform_unsupported_%s" % form)
+        continue
+      run.count("xc_argform_%s" % form)
+      qsf = make_q(Q, cls, cfg, True, form)
+      for v in ("below", "above"):
+        train_rec(c, qsf, call, rng, v, tag="form-%s-%s" % (form, v), lines=lines, recs=recs)
+      infer_rec(c, qsf, qdf, call, "form-%s-phase0" % form, lines, recs)
+      infer_rec(c, qsf, qd, call, "form-%s-phase0-vs-python-twin" % form, lines, recs)
+    # -- the flag itself in other truthy / falsy forms
+    for fname, ftrue, ffalse in (("int", 1, 0), ("np.bool_", np.bool_(True), np.bool_(False)),
+                                 ("0d-bool", np.array(True), np.array(False))):
+      try:
+        qsf, qdf = make_q(Q, cls, cfg, ftrue), make_q(Q, cls, cfg, ffalse)
+      except Exception:  # pylint: disable=broad-except
+        run.count("xc_flagform_unsupported_%s" % fname)
+        continue
+      train_rec(c, qsf, call, rng, "below", tag="flag-%s-below" % fname, lines=lines, recs=recs)
+      train_rec(c, qsf, call, rng, "above", tag="flag-%s-above" % fname, lines=lines, recs=recs)
+      infer_rec(c, qsf, qd, call, "flag-%s-phase0" % fname, lines, recs)
+      infer_rec(c, qdf, qd, call, "flag-%s-off-phase1" % fname, lines, recs, phase=True, stoch_model=False)
+      run.count("xc_flagform_%s" % fname)
+    # -- other construction routes of the same configuration
+    qs0 = make_q(Q, cls, cfg, True)
+    routes = [("from_config", lambda: type(qs0).from_config(qs0.get_config())),
+              ("get_quantizer-str", lambda: Q.get_quantizer(str(qs0)))]
+    for rname, mkr in routes:
+      try:
+        qr = mkr()
+        ok = isinstance(qr, type(qs0)) and bool(qr.use_stochastic_rounding)
+        if ok and rname == "get_quantizer-str":
+          # the text route is C10's subject: use it only when it reproduces the options (C10 judges that)
+          ok = all(getattr(qr, k, None) == getattr(qs0, k, None) for k in cfg)
+      except Exception:  # pylint: disable=broad-except
+        ok = False
+      if not ok:
+        run.count("xc_route_unusable_%s" % rname)
+        continue
+      train_rec(c, qr, call, rng, "below", tag="route-%s-below" % rname, lines=lines, recs=recs)
+      train_rec(c, qr, call, rng, "above", tag="route-%s-above" % rname, lines=lines, recs=recs)
+      infer_rec(c, qr, qd, call, "route-%s-phase0" % rname, lines, recs)
+      run.count("xc_route_%s" % rname)
+    # -- ranks 1..5 (dimensions of size 1 included), numpy array vs tensor input
+    qs = make_q(Q, cls, cfg, True)
+    if m == 16:
+      shapes = [(16,), (8, 2), (4, 2, 2), (2, 2, 2, 2), (1, 2, 2, 1, 4), (16, 1), (1, 16)]
+      for k, shp in enumerate(shapes):
+        as_np = k % 2 == 1
+        v = VARIANTS[k % len(VARIANTS)]
+        tagb = "rank%d-%s%s" % (len(shp), "x".join(map(str, shp)), "-numpy" if as_np else "")
+        train_rec(c, qs, call, rng, v, tag=tagb + "-" + v, lines=lines, recs=recs, shape=shp, as_numpy=as_np)
+        infer_rec(c, qs, qd, call, tagb + "-phase0", lines, recs, shape=shp, as_numpy=as_np)
+        run.count("xc_rank%d" % len(shp))
+    # -- rank 0 (python-scalar-like tensors), one element per call
+    for k in range(min(4, m)):
+      c1 = sub_case(c, [k * (m // 4)])
+      train_rec(c1, qs, call, rng, ("below", "above", "zero", "top")[k], tag="rank0-%d" % k,
+                lines=lines, recs=recs, shape=(), as_numpy=(k == 3))
+      infer_rec(c1, qs, qd, call, "rank0-%d-phase0" % k, lines, recs, shape=(), as_numpy=(k == 3))
+      run.count("xc_rank0")
+    # -- history on ONE object: the phase switched between calls, the shape changed between calls,
+    #    the phase given through K.learning_phase_scope, the call made through tf.function,
+    #    the public attribute use_stochastic_rounding re-assigned
+    K.set_learning_phase(1)      # built while the phase is ON, first used with the phase OFF
+    qh = make_q(Q, cls, cfg, True)
+    sh2 = (m // 2, 2) if m % 2 == 0 else None
+    infer_rec(c, qh, qd, call, "hist0-phase0", lines, recs)
+    train_rec(c, qh, call, rng, "below", tag="hist1-train", lines=lines, recs=recs)
+    infer_rec(c, qh, qd, call, "hist2-phase0-after-train", lines, recs, shape=sh2)
+    train_rec(c, qh, call, rng, "above", tag="hist3-train-after-phase0", lines=lines, recs=recs, shape=sh2)
+    infer_rec(c, qh, qd, call, "hist4-phase0-scope", lines, recs, scope=True)
+    train_rec(c, qh, call, rng, "at", tag="hist5-train-scope", lines=lines, recs=recs, scope=True)
+    infer_rec(c, qh, qd, call, "hist6-phase0-tf.function", lines, recs, graph=True)
+    train_rec(c, qh, call, rng, "zero", tag="hist7-train-tf.function", lines=lines, recs=recs, graph=True)
+    infer_rec(c, qh, qd, call, "hist8-phase0-again", lines, recs)
+    run.count("xc_history")
+    try:
+      qh.use_stochastic_rounding = False
+      settable = True
+    except AttributeError:
+      settable = False          # quantized_linear: read-only property
+      run.count("xc_flag_readonly")
+    if settable:
+      # flag switched off on a used object: deterministic at phase 1 as well (= the twin)
+      infer_rec(c, qh, qd, call, "hist9-flag-off-phase1", lines, recs, phase=True, stoch_model=False)
+      qh.use_stochastic_rounding = True
+      train_rec(c, qh, call, rng, "below", tag="hist10-flag-on-again", lines=lines, recs=recs)
+      K.set_learning_phase(0)    # built while the phase is OFF, first used with the phase ON
+      qn = make_q(Q, cls, cfg, False)
+      infer_rec(c, qn, qd, call, "hist11-built-off-phase1", lines, recs, phase=True, stoch_model=False)
+      qn.use_stochastic_rounding = True
+      train_rec(c, qn, call, rng, "above", tag="hist12-built-off-switched-on", lines=lines, recs=recs)
+      infer_rec(c, qn, qd, call, "hist13-built-off-switched-on-phase0", lines, recs)
+      run.count("xc_flag_reassigned")
+  # -- process-level switch read by quantized_tanh / quantized_sigmoid: set_internal_sigmoid, set AFTER
+  #    the objects were built (configure -> switch -> use); the oracle p follows the switch
+  try:
+    for smode in ("smooth", "real"):
+      for cls, cfg in (("quantized_tanh", dict(bits=4, symmetric=False, use_real_tanh=False)),
+                       ("quantized_sigmoid", dict(bits=4, symmetric=True, use_real_sigmoid=False))):
+        qs, qd = make_q(Q, cls, cfg, True), make_q(Q, cls, cfg, False)
+        Q.set_internal_sigmoid(smode)
+        c = build_case(tf, Q, K, cls, cfg, rng)
+        c["gap"] = 2 if smode == "real" else 0
+        # the sample key must differ from the hard-sigmoid case of the same cfg
+        c["cfg"] = dict(cfg)
+        attach_refs(run, [c])
+        for v in ("below", "at", "above"):
+          train_rec(c, qs, call, rng, v, tag="sigmoid-%s-%s" % (smode, v), lines=lines, recs=recs)
+        infer_rec(c, qs, qd, call, "sigmoid-%s-phase0" % smode, lines, recs)
+        run.count("xc_internal_sigmoid_%s" % smode)
+        Q.set_internal_sigmoid("hard")
+  finally:
+    Q.set_internal_sigmoid("hard")
+  outs = core.run_driver("C08", lines)
+  for rec, o in zip(recs, outs):
+    _judge_class(run, rec, o)
+
+
+# ---- option lattice beyond the model: inference equality, determinism, no draw -----------------------
+
+def _lattice_makers(Q, tier):
+  """(label, class name, constructor(stoch)) — every stochastic-capable class over the options that are
+  individually legal; the twin is built from the SAME options"""
+  out = []
+
+  def add(cls, **kw):
+    label = "%s(%s)" % (cls, ", ".join("%s=%r" % kv for kv in sorted(kw.items())))
+    out.append((label, cls, (lambda s, cls=cls, kw=kw: getattr(Q, cls)(use_stochastic_rounding=s, **kw)), kw))
+  for us in (0, 1):
+    for ns in (0.0, 0.25, 2.0):
+      for rub in (None, 1.5):
+        for iqc in (True, False):
+          add("quantized_relu", bits=4, integer=1, use_sigmoid=us, negative_slope=ns, relu_upper_bound=rub,
+              is_quantized_clip=iqc)
+  add("quantized_relu", bits=6, integer=2, negative_slope=0.5, qnoise_factor=0.5)
+  add("quantized_relu", bits=6, integer=2, use_ste=False, qnoise_factor=0.5)
+  for alpha in (None, 2.0, "auto", "auto_po2"):
+    for sym in (0, 1):
+      for kn in (True, False):
+        for bits in (1, 4):
+          add("quantized_bits", bits=bits, integer=1 if bits > 1 else 0, symmetric=sym, keep_negative=kn, alpha=alpha)
+          if not (alpha in ("auto", "auto_po2") and not sym and kn):      # asymmetric auto is rejected by the class
+            add("quantized_linear", bits=bits, integer=1 if bits > 1 else 0, symmetric=sym, keep_negative=kn,
+                alpha=alpha)
+  add("quantized_bits", bits=8, integer=3, alpha=1, qnoise_factor=0.5)
+  add("quantized_bits", bits=8, integer=3, alpha=1, use_ste=False, qnoise_factor=0.25)
+  add("quantized_linear", bits=8, integer=3, alpha=1.0, qnoise_factor=0.5)
+  add("quantized_hswish", bits=6, integer=2)
+  add("quantized_hswish", bits=8, integer=3, symmetric=1, alpha="auto_po2")
+  for b in (2, 4, 8):
+    for sym in (False, True):
+      for real in (False, True):
+        add("quantized_tanh", bits=b, symmetric=sym, use_real_tanh=real)
+        add("quantized_sigmoid", bits=b, symmetric=sym, use_real_sigmoid=real)
+  for alpha in (None, 1.0, 3.0, "auto", "auto_po2"):
+    for u01 in (False, True):
+      add("binary", alpha=alpha, use_01=u01)
+  for alpha in ("auto", "auto_po2"):
+    for thr in (None, 0.5):
+      for nu in (1, 5):
+        add("ternary", alpha=alpha, threshold=thr, number_of_unrolls=nu)
+  for bits in (4, 8):
+    for mv in (None, 0.5, 1.0, 2.0, 3.0):
+      for rounding in ("rnd", "floor"):
+        for quad in (False, True):
+          add("quantized_po2", bits=bits, max_value=mv, log2_rounding=rounding, quadratic_approximation=quad)
+          for ns in (0, 0.5, 2.0):
+            add("quantized_relu_po2", bits=bits - 1, max_value=mv, negative_slope=ns, log2_rounding=rounding,
+                quadratic_approximation=quad)
+  add("quantized_po2", bits=6, qnoise_factor=0.5)
+  add("quantized_po2", bits=6, quadratic_approximation=True, use_ste=False, qnoise_factor=0.5)
+  add("quantized_relu_po2", bits=6, quadratic_approximation=True, use_ste=False)
+  return out
+
+
+def _lattice(run, tier, rng, tf, Q, K, draws, call):
+  """clause `inference_equal` judged directly on the real outputs (no model): learning phase 0, flag on
+  vs. the twin with the SAME options and the flag off; no random draw may happen; a second call on the
+  same object returns the same tensor.  Inputs are NOT restricted to the exact regime: both objects run
+  the same float computation, so equality is bit for bit whatever the rounding noise."""
+  vals = [Fraction(int(k), 64) for k in rng.integers(-640, 641, size=36)]
+  vals += [Fraction(0), Fraction(0), Fraction(1), Fraction(-1), Fraction(1, 2), Fraction(3, 2), Fraction(5, 2),
+           Fraction(1, 32), Fraction(3, 32), Fraction(723, 100), Fraction(3, 4), Fraction(7, 2), Fraction(1, 3)]
+  vals += [Fraction(2) ** int(e) * (1 if k % 2 else -1) for k, e in enumerate(rng.integers(-6, 6, size=7))]
+  x = np.array([float(v) for v in vals], dtype=np.float32)             # 56 values
+  shapes = [(14, 4), (56,), (7, 2, 4), (1, 7, 2, 2, 2)]
+  for k, (label, cls, mk, _kw) in enumerate(_lattice_makers(Q, tier)):
+    shp = shapes[k % len(shapes)] if cls not in ("binary", "ternary") else (14, 4)
+    key = {"class": cls, "kind": "value", "stream": "lattice"}
+    run.case(("lattice", label))
+    run.compared += 1
+    try:
+      qs, qd = mk(True), mk(False)
+    except Exception as e:  # pylint: disable=broad-except
+      run.count("lattice_unsupported_options")
+      continue
+    ya, _ = call(qs, x, [], False, shp, as_numpy=(k % 3 == 2))
+    yb, _ = call(qd, x, [], False, shp, as_numpy=(k % 3 == 2))
+    ya2, _ = call(qs, x, [], False, shp)
+    run.count("lattice_%s" % cls)
+    if isinstance(yb, Exception):
+      if not isinstance(ya, Exception):
+        run.disagree("lattice", {"cfg": label, "what": "twin raised, stochastic did not"}, "value", str(yb)[:200])
+      else:
+        run.count("lattice_both_raise")
+      run.extra.setdefault("lattice_both_raise", []).append("%s: %s" % (label, str(yb)[:80]))
+      continue
+    for nm, yy in (("first call", ya), ("second call on the same object", ya2)):
+      if isinstance(yy, Exception):
+        kind = "random-draw-at-inference" if isinstance(yy, DrawError) else "raises"
+        run.violate("inference_equal", dict(key, kind=kind),
+                    {"cfg": label, "shape": list(shp), "call": nm, "error": str(yy)[:300]}, mirrored=False)
+        break
+      if not np.array_equal(yy, yb, equal_nan=True):
+        i = int(np.nonzero(~((yy == yb) | (np.isnan(yy) & np.isnan(yb))))[0][0])
+        run.violate("inference_equal", key,
+                    {"cfg": label, "shape": list(shp), "call": nm, "x": float(x[i]),
+                     "stochastic_flag_output": float(yy[i]), "deterministic_output": float(yb[i]),
+                     "n_bad": int(np.sum(yy != yb))}, mirrored=False)
+        break
+
+
+# ---- option lattice, training phase: is the flag alive?  (model-free necessary conditions) ------------
+
+LIVE_CLASSES = ("quantized_bits", "quantized_linear", "quantized_relu", "quantized_po2", "quantized_relu_po2")
+
+
+def _live_target(cls, kw, x64):
+  """the quantity whose expectation the property speaks about, in output units (before clipping)"""
+  if cls == "quantized_bits" and isinstance(kw.get("alpha"), (int, float)):
+    return x64 * float(kw["alpha"])          # quantized_bits multiplies the codes by a numeric alpha
+  if cls in ("quantized_relu", "quantized_relu_po2"):
+    return np.where(x64 >= 0, x64, x64 * float(kw.get("negative_slope", 0)))
+  return x64
+
+
+def _live_corner(cls, kw):
+  if cls == "quantized_bits" and isinstance(kw.get("alpha"), str):
+    return "alpha=auto*"
+  if cls == "quantized_bits" and kw["bits"] - int(bool(kw.get("keep_negative", True))) <= 0:
+    return "sign-branch"
+  if "po2" in cls and kw.get("log2_rounding") == "floor":
+    return "log2_rounding=floor"
+  return "none"
+
+
+def _live(run, tier, rng, tf, Q, K, draws, call):
+  """Training phase over the option lattice, judged WITHOUT the model, for the classes whose rounded
+  quantity is the input itself.  Two calls with chosen draws: u = 0 everywhere (every non-code goes UP)
+  and u = 1-2^-23 everywhere (every non-code goes DOWN).  For every element that is not saturated
+  (strictly inside the range of the twin's outputs of its channel):
+    bracket   y_down <= input <= y_up  and  the twin's (round-to-nearest) output is one of the two
+    live      if the input is not returned unchanged, y_down != y_up — otherwise the output does not depend
+              on the draw and its expectation is that output, not the input (clause `unbiased`); when NO
+              draw is consumed at all the whole option corner ignores the flag (kind `flag-ignored`)."""
+  vals = [Fraction(int(k), 64) for k in rng.integers(-640, 641, size=40)]
+  vals += [Fraction(0), Fraction(1), Fraction(-1), Fraction(1, 2), Fraction(3, 2), Fraction(5, 2), Fraction(1, 32),
+           Fraction(3, 32), Fraction(3, 4), Fraction(7, 2), Fraction(-3, 8), Fraction(-5, 16), Fraction(3, 10),
+           Fraction(-7, 10), Fraction(9, 4), Fraction(-9, 16)]
+  x = np.array([float(v) for v in vals], dtype=np.float32).reshape(14, 4)
+  xfr = fr_list(x)
+  x64 = x.astype(np.float64)
+  n = x.size
+  zero = np.zeros(n, dtype=np.float32)
+  top = np.full(n, float(TOP), dtype=np.float32)
+  pend = []           # (violation args, model line or None, element index)
+  for k, (label, cls, mk, kw) in enumerate(_lattice_makers(Q, tier)):
+    if cls not in LIVE_CLASSES or kw.get("use_sigmoid"):
+      continue
+    if kw.get("qnoise_factor", 1.0) != 1.0:
+      continue      # the output is a mix of x and xq: saturation cannot be read off the outputs
+    if cls == "quantized_bits" and kw.get("alpha") == "auto":
+      continue      # same dead branch as "auto_po2", but its float scale is not exactly mirrored
+    if cls == "quantized_linear" and isinstance(kw.get("alpha"), str):
+      continue      # the scale search itself rounds stochastically: the code lattice depends on the draws
+    run.case(("live", label))
+    try:
+      qs, qd = mk(True), mk(False)
+    except Exception:  # pylint: disable=broad-except
+      continue
+    nq = 24           # quantized_linear(alpha="auto_po2") rounds inside its scale iteration as well
+    y_up, left_up = call(qs, x.reshape(-1), [zero] * nq, True, (14, 4))
+    y_dn, left_dn = call(qs, x.reshape(-1), [top] * nq, True, (14, 4))
+    t, _ = call(qd, x.reshape(-1), [], True, (14, 4))
+    if any(isinstance(v, Exception) for v in (y_up, y_dn, t)):
+      if not isinstance(t, Exception):
+        e = y_up if isinstance(y_up, Exception) else y_dn
+        run.violate("runs", {"class": cls, "kind": type(e).__name__, "stream": "live"},
+                    {"cfg": label, "error": str(e)[:300]}, mirrored=False)
+      else:
+        run.count("live_both_raise")
+      continue
+    if not (np.all(np.isfinite(t)) and np.all(np.isfinite(y_up)) and np.all(np.isfinite(y_dn))):
+      run.count("live_skipped_nonfinite")
+      continue
+    run.compared += n
+    consumed = nq - left_up
+    corner = _live_corner(cls, kw)
+    tgt = _live_target(cls, kw, x64).reshape(-1)
+    t2 = t.reshape(14, 4).astype(np.float64)
+    lo = np.broadcast_to(t2.min(axis=0, keepdims=True), (14, 4)).reshape(-1)
+    hi = np.broadcast_to(t2.max(axis=0, keepdims=True), (14, 4)).reshape(-1)
+    yu, yd, tt = y_up.astype(np.float64), y_dn.astype(np.float64), t.astype(np.float64)
+    inside = (tgt > lo) & (tgt < hi)
+    if "po2" in cls:
+      # the lattice is one of magnitudes: saturation is |input| outside the range of |output|
+      a2 = np.abs(t2)
+      alo = np.broadcast_to(a2.min(axis=0, keepdims=True), (14, 4)).reshape(-1)
+      ahi = np.broadcast_to(a2.max(axis=0, keepdims=True), (14, 4)).reshape(-1)
+      inside = (np.abs(tgt) > alo) & (np.abs(tgt) < ahi)
+    run.count("live_%s_%s" % (cls, "dead" if consumed == 0 else "alive"))
+    run.count("live_elements_judged", int(inside.sum()))
+    # which model line can mirror a dead corner
+    mline = None
+    if consumed == 0 and corner != "none" and kw.get("qnoise_factor", 1.0) == 1.0 and kw.get("use_ste", True):
+      if corner == "alpha=auto*" and kw["alpha"] == "auto_po2":
+        S = np.broadcast_to(np.asarray(K.eval(qs.scale), dtype=np.float32), (14, 4)).reshape(-1)
+        mline = {"op": "q", "cls": "quantized_bits_auto", "phase": True, "stoch": True, "x": enc(xfr),
+                 "bits": kw["bits"], "integer": kw["integer"], "symmetric": True,
+                 "keep_negative": bool(kw["keep_negative"]), "alpha": [1, 1], "S": enc(fr_list(S))}
+      elif corner == "sign-branch":
+        mline = model_line("quantized_bits", dict(kw, alpha=kw.get("alpha")), True, True, xfr)
+      elif corner == "log2_rounding=floor":
+        cfg = dict(kw)
+        cfg.setdefault("negative_slope", 0)
+        ss = fr_list(po2_sqrt_oracle(tf, cls, cfg, x.reshape(-1))) if cfg.get("quadratic_approximation") else None
+        mline = model_line(cls, cfg, True, True, xfr, s=ss)
+    for i in np.nonzero(inside)[0]:
+      i = int(i)
+      det = {"cfg": label, "x": float(x.reshape(-1)[i]), "input_in_output_units": float(tgt[i]),
+             "output_u0": float(yu[i]), "output_u_top": float(yd[i]), "round_to_nearest_twin": float(tt[i]),
+             "draws_consumed": consumed}
+      if yu[i] == yd[i] and yu[i] != tgt[i]:
+        kind = "flag-ignored" if consumed == 0 else "flag-ignored-element"
+        pend.append((("unbiased", {"class": cls, "kind": kind, "corner": corner, "stream": "live"}, det), mline, i))
+      elif not (min(yd[i], yu[i]) <= tgt[i] <= max(yd[i], yu[i])):
+        pend.append((("adjacent", {"class": cls, "kind": "bracket", "stream": "live"}, det), None, i))
+      elif tt[i] != yu[i] and tt[i] != yd[i]:
+        pend.append((("inference_equal", {"class": cls, "kind": "twin-not-adjacent", "stream": "live"}, det), None, i))
+  # mirror check for the dead corners the model knows about
+  mlines, seen = [], {}
+  for _, ml, _ in pend:
+    if ml is not None and id(ml) not in seen:
+      seen[id(ml)] = len(mlines)
+      mlines.append(ml)
+  mouts = core.run_driver("C08", mlines) if mlines else []
+  for (clause, key, det), ml, i in pend:
+    mirrored = False
+    if ml is not None:
+      my = dec(mouts[seen[id(ml)]]["y"])
+      mirrored = (my[i] == Fraction(det["output_u0"]))
+      det = dict(det, model_output=str(my[i]))
+    run.violate(clause, key, det, mirrored=mirrored)
+
+
 # ---- un-patched RNG -------------------------------------------------------------------------------------
 
 def _rng_stream(run, tier, rng, tf, Q, K):
@@ -842,19 +1458,23 @@ def _rng_stream(run, tier, rng, tf, Q, K):
           ("quantized_tanh", dict(bits=4, symmetric=False, use_real_tanh=False)),
           ("quantized_sigmoid", dict(bits=4, symmetric=False, use_real_sigmoid=False)),
           ("quantized_po2", dict(bits=4, max_value=None)),
-          ("quantized_relu_po2", dict(bits=4, max_value=None, negative_slope=0))]
+          ("quantized_relu_po2", dict(bits=4, max_value=None, negative_slope=0)),
+          ("quantized_po2", dict(bits=4, max_value=None, log2_rounding="floor")),
+          ("quantized_po2", dict(bits=5, max_value=None, quadratic_approximation=True)),
+          ("quantized_relu_po2", dict(bits=4, max_value=3.0, negative_slope=2.0, quadratic_approximation=True))]
   K.set_learning_phase(1)
   lines, cases = [], []
   for cls, cfg in cfgs:
     if "po2" in cls:
       xs = [Fraction(int(k), 64) for k in rng.integers(1, 512, size=48)] + [Fraction(1), Fraction(1, 2)]
-      if cls == "quantized_po2":
+      if cls == "quantized_po2" or cfg.get("negative_slope"):
         xs += [-x for x in xs[:10]]
     else:
       xs = [Fraction(int(k), 256) for k in rng.integers(-640, 640, size=56)]
     xs32 = f32list(xs)
     ps = fr_list(_oracle_p(tf, Q, K, cls, cfg, xs32)) if cls in ("quantized_tanh", "quantized_sigmoid") else xs
-    lines.append(model_line(cls, cfg, True, True, ps))
+    ss = fr_list(po2_sqrt_oracle(tf, cls, cfg, xs32)) if ("po2" in cls and cfg.get("quadratic_approximation")) else None
+    lines.append(model_line(cls, cfg, True, True, ps, s=ss))
     cases.append((cls, cfg, xs, xs32, ps))
   refs = core.run_driver("C08", lines)
   means = {}
@@ -866,14 +1486,17 @@ def _rng_stream(run, tier, rng, tf, Q, K):
       tf.random.set_seed(int(run.seed) * 100003 + s)
       y = np.asarray(q(tf.constant(xs32)).numpy(), dtype=np.float32)
       acc += y
-      run.case(("rng", cls, s), nontrivial=(s < 2))
+      run.case(("rng", cls, str(cfg), s), nontrivial=(s < 2))
       for i, yi in enumerate(fr_list(y)):
         if yi != below[i] and yi != above[i]:
           kind = "midpoint" if (below[i] != above[i] and 2 * yi == below[i] + above[i]) else "other"
           # mirrored: the model with SOME draw gives this output (the half step is what the model's
           # precision produces); for other kinds there is no such claim
           mirrored = kind == "midpoint" and run.extra.get("model_act_precision") == "1/2"
-          run.violate("adjacent", {"class": cls, "kind": kind},
+          kb = {"class": cls, "kind": kind}
+          if "po2" in cls:
+            kb["mode"] = po2_mode(cfg)
+          run.violate("adjacent", kb,
                       {"stream": "rng", "seed": s, "cfg": str(cfg), "x": str(xs[i]), "output": str(yi),
                        "code_below": str(below[i]), "code_above": str(above[i])}, mirrored=mirrored)
       run.count("rng_draws_%s" % cls, len(xs))
@@ -886,7 +1509,7 @@ def _rng_stream(run, tier, rng, tf, Q, K):
       if gap == 0:
         continue
       worst = max(worst, abs(mean[i] - float(clipped[i])) / gap)
-    means[cls] = {"seeds": seeds, "max_abs_mean_error_in_code_gaps": round(worst, 4),
+    means[cls if "po2" not in cls or po2_mode(cfg) == "rnd" else "%s[%s]" % (cls, po2_mode(cfg))] = {"seeds": seeds, "max_abs_mean_error_in_code_gaps": round(worst, 4),
                   "six_sigma_bound": round(6 * 0.5 / math.sqrt(seeds), 4),
                   "alarm": bool(worst > 6 * 0.5 / math.sqrt(seeds))}
   run.extra["empirical_mean_unpatched_rng"] = means
